@@ -12,12 +12,25 @@ OBLIGATIONS = [
     "KafVerif.C01.old_violates",
     "KafVerif.C01.fixed_same_schedule",
     "KafVerif.C06.one_log_per_partition",
+    "KafVerif.C01.put_ok_implies_stored",
+    "KafVerif.C01.put_err_keeps_or_stores",
+    "KafVerif.C01.put_other_keys_untouched",
+    "KafVerif.C01.put_shadow_violates",
+    "KafVerif.C01.download_ok_is_stored",
+    "KafVerif.C01.ensure_ok_bucket_exists",
+    "KafVerif.C01.flush_uploads_ok_implies_both_stored",
 ]
 TECHNIQUE = ("Lean 4 proof (inductive invariant of a transition system over all interleavings, S3 fault sequences, crashes) over a hand-written model of the PartitionLog flush protocol + schedule x fault enumeration on the real broker code through gated S3/store fakes, diffed against the model + direct monitor")
 LEVEL_TEXT = ("Lean 4 theorems for EVERY reachable state (any number of producers, any interleaving of critical sections, any outcome of every segment/index upload and store update, crashes and restarts anywhere, any flush thresholds): every acknowledged batch is contained in an S3 segment object whose index object exists (ack_durable), stays so, and is served by a registered segment while the broker is up; the pre-fix code is refuted by a concrete schedule (old_violates). Model tied to the current source by replaying all small schedules and random larger ones on the real handleProduce/PartitionLog and diffing every step.")
 LEVEL_NOTE = ("Trusted: Lean kernel; the hand-written transition system `StorageLog` (one step = one l.mu critical section / one S3 or store call / one condvar wake-up; sync.Mutex, sync.Cond, errgroup and S3 put semantics assumed); the Go harness, its quiescence detection and its schedule generators (the tie sees only the schedules it runs: all schedules of 2-3 producers with bounded faults/crashes + random ones). Not covered: acks=0 / flush-off mode, int64 overflow, header lies (C02), two broker incarnations at once (C18/C19), EtcdStore.UpdateOffsets under concurrent writers (only its sequential behaviour is pinned by the repo tests).")
-BUILDS = K.BUILDS
-ASSUMPTIONS = K.ASSUMPTIONS
+BUILDS = dict(K.BUILDS, s3=("root", "./cmd/verif_c01s3", ["C01"]))
+ASSUMPTIONS = K.ASSUMPTIONS + [
+    "lower seam (real awsS3Client, pkg/storage/s3_aws.go, over a fake of its `api` interface with an outcome oracle per API call): the S3 API's "
+    "PutObject returns nil only when the object is stored with the request body (whole-object atomic put) and GetObject returns the stored bytes; "
+    "under that assumption `put_ok_implies_stored` discharges, for every oracle outcome of the first PUT / HeadBucket / CreateBucket / retried PUT, "
+    "the fact the transition system uses for its `seg t ok` / `idx t ok` events (upload returned nil ==> object stored); validated by the oracle sweep "
+    "(all scripts of length 4 over {natural, NoSuchBucket, NotFound, SlowDown, BucketAlreadyOwnedByYou}) on the real client",
+]
 TRUSTED = K.TRUSTED
 WHICH = {"C01"}
 
@@ -42,11 +55,162 @@ def plans(quick):
     return enum, rnd
 
 
+# ----------------------------------------------------------------------------- lower seam: awsS3Client over a fake S3 API
+S3_TOKENS = [".", "nsb", "nf", "slow", "owned"]
+S3_KEYS = ["p/0/segment-00000000000000000000", "p/0/segment-00000000000000000007", "p/1/segment-00000000000000000000",
+           "p/10/segment-00000000000000000000", "p/10/segment-00000000000000000042"]
+
+
+def s3_ops(ck):
+    """op lines for harness/C01/root/cmd/verif_c01s3 (see its header): (a) the oracle sweep over putObject: every script of
+    length 4 over S3_TOKENS, bucket present and missing; (b) Flush of a real PartitionLog over the client with natural /
+    failing PUTs per object; (c) random worlds of put/get/del/list/ensure with random scripts."""
+    import itertools
+    r = ck.rng.fork()
+    ops = []
+    n = 0
+    for bucket in (0, 1):
+        for sc in itertools.product(S3_TOKENS, repeat=4):
+            if n % 25 == 0:
+                ops.append("reset %d" % bucket)
+            n += 1
+            kind = "seg" if n % 2 else "idx"
+            ops.append("put %s %s%s %02x%02x %s" % (kind, S3_KEYS[n % 3], ".kfs" if kind == "seg" else ".index", n & 0xFF, n >> 8, ",".join(sc)))
+            if r.chance(1, 5):
+                ops.append("reset %d" % bucket)
+    for bucket in (0, 1):
+        for nb in (1, 3):
+            for s1 in ("-", "slow", "slow,slow", ".,slow"):
+                for s2 in ("-", "slow", "slow,slow"):
+                    ops += ["reset %d" % bucket, "flush %d %s %s" % (nb, s1, s2)]
+    toks = [".", ".", ".", "nsb", "nf", "slow", "owned", "exists", "h404", "nokey", "badbody"]
+    for w in range(40 if ck.quick() else 400):
+        ops.append("reset %d" % r.below(2))
+        for _ in range(r.range(8, 20)):
+            key = r.choice(S3_KEYS)
+            sc = "-" if r.chance(1, 2) else ",".join(r.choice(toks) for _ in range(r.range(1, 5)))
+            x = r.below(10)
+            if x < 4:
+                kind = r.choice(["seg", "idx"])
+                body = bytes(r.below(256) for _ in range(r.choice([0, 1, 2, 5, 17]))).hex() or "-"
+                ops.append("put %s %s%s %s %s" % (kind, key, ".kfs" if kind == "seg" else ".index", body, sc))
+            elif x < 7:
+                kind = r.choice(["seg", "idx"])
+                rng = "-" if kind == "idx" or r.chance(1, 2) else "%d:%d" % (r.choice([0, 1, 2, 5, 16, 17, 40]), r.choice([0, 1, 4, 16, 17, 100]))
+                ops.append("get %s %s%s %s %s" % (kind, key, r.choice([".kfs", ".index"]), rng, sc))
+            elif x < 8:
+                ops.append("del %s %s%s %s" % (r.choice(["seg", "idx"]), key, r.choice([".kfs", ".index"]), sc))
+            elif x < 9:
+                ops.append("list %s %s" % (r.choice(["p/0/", "p/1/", "p/1", "p/", "q/"]), sc))
+            else:
+                ops.append("ensure %s" % sc)
+    return ops
+
+
+def s3_kv(line):
+    return dict(x.split("=", 1) for x in line.split()[1:] if "=" in x)
+
+
+def s3_monitor(ops, lines):
+    """acknowledged ==> durable at the S3 client: independent of the model.  Yields (index, fingerprint, what)."""
+    objs = {}
+    for i, (op, line) in enumerate(zip(ops, lines)):
+        f = op.split()
+        d = s3_kv(line)
+        if line.endswith(" panic") or line == "bad-op":
+            yield i, "s3-client-panic", "%r -> %s" % (op[:80], line)
+            continue
+        natural = f[-1] == "-" or all(t == "." for t in f[-1].split(","))
+        if f[0] == "reset":
+            objs = {}
+        elif f[0] == "put":
+            body = "-" if f[3] == "-" else f[3]
+            prev = objs.get(f[2], "none")
+            if d["ret"] == "nil" and d["obj"] != body:
+                yield i, "upload-ok-but-object-not-stored", ("%s of %s returned nil but the bucket holds %s for the key (API calls: %s)"
+                                                             % ("UploadSegment" if f[1] == "seg" else "UploadIndex", f[2], d["obj"], d["calls"]))
+            if d["ret"] != "nil" and d["obj"] not in (prev, body):
+                yield i, "failed-upload-left-other-bytes", "failed upload of %s left %s" % (f[2], d["obj"])
+            if d["obj"] == "none":
+                objs.pop(f[2], None)
+            else:
+                objs[f[2]] = d["obj"]
+        elif f[0] == "get":
+            have = objs.get(f[2])
+            if d["ret"] == "nil":
+                want = None
+                if have is not None:
+                    raw = b"" if have == "-" else bytes.fromhex(have)
+                    if f[3] != "-":
+                        a, b = map(int, f[3].split(":"))
+                        raw = raw[a:b + 1]
+                    want = raw.hex() or "-"
+                if d["data"] != want:
+                    yield i, "download-returns-other-bytes", "%s returned %s, the bucket holds %s" % (op[:80], d["data"], have)
+            elif natural and have is not None and f[3] == "-":
+                yield i, "download-of-stored-object-failed", "%s failed although the object is stored" % op[:80]
+            if have is None and natural and f[1] == "idx" and d["ret"] != "notfound" and d["calls"] != "GET:nsb":
+                yield i, "missing-index-not-reported-as-not-found", "%s -> %s" % (op[:80], line)
+        elif f[0] == "del":
+            if d["ret"] == "nil" and d["obj"] != "none":
+                yield i, "delete-ok-but-object-present", "%s -> %s" % (op[:80], line)
+            if d["obj"] == "none":
+                objs.pop(f[2], None)
+        elif f[0] == "list":
+            if d["ret"] == "nil" and natural:
+                want = ",".join("%s:%d" % (k, 0 if v == "-" else len(v) // 2) for k, v in sorted(objs.items()) if k.startswith(f[1])) or "-"
+                if d["keys"] != want:
+                    yield i, "listing-incomplete", "ListSegments(%s) returned %s, the bucket holds %s" % (f[1], d["keys"], want)
+        elif f[0] == "flush":
+            if d["ret"] == "nil" and (d["seg"] != "ok" or d["idx"] != "ok"):
+                yield i, "flush-ok-but-object-not-stored", ("Flush returned nil (the produce is acknowledged) but segment object: %s, index object: %s "
+                                                            "(%s)" % (d["seg"], d["idx"], op))
+
+
+def run_s3_seam(ck, binary, ops=None):
+    """Drive the real awsS3Client over the fake API; monitor + diff against the Lean model (Driver/C01S3)."""
+    ops = ops or s3_ops(ck)
+    fn = ck.path("ops_s3.txt")
+    open(fn, "w").write("\n".join(ops) + "\n")
+    rc, out, err = ck.run_bin(binary, stdin_path=fn, timeout=300)
+    lines = out.split("\n")[:-1]
+    if rc != 0 or len(lines) != len(ops):
+        ck.broke("S3-client harness did not answer every op", "rc=%s lines=%d/%d %s" % (rc, len(lines), len(ops), err[-800:]))
+        return False
+    starts = [i for i, o in enumerate(ops) if o.startswith("reset")] or [0]
+    world = {}
+    for a, b in zip(starts, starts[1:] + [len(ops)]):
+        for i in range(a, b):
+            world[i] = a
+        o, l = ops[a:b], lines[a:b]
+        faulty = any(("nsb" in x or "slow" in x or "nf" in x) for x in o)
+        ck.case(tuple(o), nontrivial=faulty and len(o) > 1, sample={"stream": "s3-seam", "ops": o[:4], "impl": l[:4]})
+        for x, y in zip(o, l):
+            ck.count("s3:%s:%s" % (x.split()[0], s3_kv(y).get("ret", "-")))
+    ok = True
+    for (i, fp, what) in s3_monitor(ops, lines):
+        a = world.get(i, 0)
+        if ck.violation(fp, what, {"harness": "s3", "ops": ops[a:i + 1], "actual": lines[i],
+                                   "expected": "a nil result of the S3 client means the object is stored with exactly the bytes"}):
+            ok = False
+    model = ck.lean_run("C01S3", fn)
+    ck.cov["traces_validated_against_impl"] += len(starts)
+    d = lib.first_diff(lines, model)
+    if d is not None and ok:
+        ck.cov["disagreements_checked"] += 1
+        ck.broke("correspondence model/implementation (awsS3Client over the fake S3 API)",
+                 "ops %r\nimpl : %s\nmodel: %s" % (ops[world.get(d, 0):d + 1][-6:], lines[d] if d < len(lines) else None,
+                                                     model[d] if d < len(model) else None))
+        ok = False
+    return ok
+
+
 def run(ck):
     bins = ck.build_all()
     if bins is None:
         return
     binary = bins["h"]
+    run_s3_seam(ck, bins["s3"])
     ck.cov["rule"] = ("schedules (which gated goroutine proceeds, with which S3 outcome) generated against the real broker from VERIF_SEED; "
                       "non-trivial = >=2 producers and (an upload fault or a Flush waiter or a crash); distinct = distinct command lists")
     enum, rnd = plans(ck.quick())
@@ -83,5 +247,13 @@ def run(ck):
 
 
 def replay(ck, path):
+    import json
+    rep = json.load(open(path))
+    if rep.get("harness") == "s3":
+        bins = ck.build_all()
+        if bins is not None:
+            run_s3_seam(ck, bins["s3"], rep["ops"])
+            ck.cov["distinct_nontrivial"] = max(ck.cov["distinct_nontrivial"], 2)
+        return
     from checks import C06 as R
     K.replay(ck, path, WHICH, mon_fn=lambda o, l: R.reg_monitor(o, l, WHICH))
